@@ -180,6 +180,7 @@ PROPERTIES = {
         assumptions=['rustls reports the peer chain end-entity first and non-empty under mandatory client auth'],
     ),
     'C14': dict(
+        technique='contract-based deductive verification (Verus): TLS configuration wiring and the two certificate-verifier bodies against webpki as uninterpreted functions; bounded enumeration twin on an executable webpki model; execution on real networks for SNI / webpki',
         units=['tls_config', 'crypto', 'enum_certs'],
         canaries=['tls_config', 'crypto', 'certs'],
         extra=[validate.network_names, validate.claimed_name_grid, validate.cert_corpus],
@@ -199,6 +200,7 @@ PROPERTIES = {
         assumptions=['the contracts of webpki\'s four entry points in unit crypto (uninterpreted functions of exactly the arguments handed over)', 'the executable webpki model of unit enum_certs (stated in its docstring)'],
     ),
     'C16': dict(
+        technique='contract-based deductive verification (Verus) of the dispatch step against an uninterpreted trie; router construction by bounded exhaustive enumeration of histories on a model of matchit (labelled bounded); the real trie by execution',
         units=['routing', 'enum_router'],
         canaries=['routing'],
         extra=[validate.routing_table, validate.hostile_requests],
@@ -215,6 +217,7 @@ PROPERTIES = {
         assumptions=['the executable matchit model of unit enum_router (stated in its docstring); BTreeMap as a map; BoxCloneService / Oneshot call the service they wrap'],
     ),
     'C17': dict(
+        technique='contract-based deductive verification (Verus) of the four hand-written generic RPC functions with codecs as uninterpreted functions; the generators are run on a finite family of definitions and their output inspected (bounded, by execution)',
         units=['typed_rpc'],
         canaries=['typed_rpc'],
         extra=[validate.codegen_routes, validate.typed_rpc_roundtrip, validate.hostile_requests],
@@ -232,6 +235,7 @@ PROPERTIES = {
         assumptions=['StatusCode::is_success() is true exactly for Success (kani_wire::status_closed_set: only 200 lies in 200..=299)'],
     ),
     'C18': dict(
+        technique="contract-based deductive verification (Verus) of the constructors and of the lifted async block of call (which semaphore, served holding its own peer's permit, refusals); the limit itself by bounded exhaustive enumeration of schedules over the real async block on a model of tokio's Semaphore (labelled bounded; level model_checking)",
         category='model_checking',   # the deciding part is the bounded enumeration of schedules over the real async block
         units=['limits', 'enum_limits'],
         canaries=['limits'],
@@ -251,6 +255,7 @@ PROPERTIES = {
         assumptions=['the executable models of tokio::sync::Semaphore and DashMap in unit enum_limits (stated in its docstring)'],
     ),
     'C12': dict(
+        technique='contract-based deductive verification (Verus) of two structural obligations (the stop race in do_handle, reset on drop); a bounded enumeration of schedules for the shipped in-flight limiter; the cross-connection behaviour is decided only by scripted execution on real networks (level other)',
         category='other',      # two structural obligations; the behaviour across the connection is only executed
         units=['wire', 'crypto', 'enum_limits'],
         canaries=['streams'],
@@ -267,6 +272,7 @@ PROPERTIES = {
         assumptions=['quinn: dropping a RecvStream sends STOP_SENDING and the peer\'s SendStream::stopped() then resolves'],
     ),
     'C19': dict(
+        technique="contract-based deductive verification (Verus) of the constructors and of the lifted async block of call (charged to its own peer's key before being served, refusal with positive wait hint); the quota itself by bounded exhaustive enumeration of arrival histories on a model of governor over a virtual clock (labelled bounded; level model_checking)",
         category='model_checking',   # the deciding part is the bounded enumeration of histories over the real async block
         units=['limits', 'enum_limits'],
         canaries=['limits'],
@@ -283,6 +289,7 @@ PROPERTIES = {
         assumptions=['the executable model of governor in unit enum_limits (stated in its docstring)'],
     ),
     'C08': dict(
+        technique='contract-based deductive verification (Verus) of the single-call sentences (calls on a closed network fail; the shutdown request always reaches the manager); everything about task ends, channel closure and socket release is decided only by scripted execution on real networks (level other)',
         category='other',      # obligations about single calls (on a network that is gone; the shutdown request reaching the manager); the property as a whole is only executed
         units=['active_peers', 'enum_cm'],
         canaries=['active_peers'],
